@@ -198,6 +198,7 @@ class PE:
         self.max_depth = max_depth
         self.depth = 0
         self.mod_globals: dict[str, dict] = {}
+        self._interned: dict = {}   # value identity of frozen dataclass objects -> representative object
         self.overrides: dict = {}   # qualified name -> callable(pe, args, kwargs)
         self.ext: dict = {}
         self.trace_calls: list[str] = []
@@ -466,6 +467,11 @@ class PE:
             if a.cls is not b.cls:
                 return False
             if a.cls.is_dataclass or _is_enum(self.src, a.cls):
+                names = self.identity_fields(a.cls) if a.cls.is_dataclass else None
+                if names is not None:
+                    return all(self.truth(self.compare(ast.Eq(), a.attrs.get(k), b.attrs.get(k))) for k in names)
+                if a.cls.is_dataclass:
+                    return False   # eq=False: identity
                 if set(a.attrs) != set(b.attrs):
                     return False
                 return all(self.truth(self.compare(ast.Eq(), a.attrs[k], b.attrs[k])) for k in a.attrs)
@@ -504,6 +510,10 @@ class PE:
             m = self.src.find_method(container.cls, "__contains__")
             if m:
                 return self.truth(self.apply(Bound(container, Closure(m, m.node, None, m.module, m.qname)), [x], {}))
+            if self.src.find_method(container.cls, "__iter__"):   # the language's fallback: membership by iteration
+                return any(self.truth(self.compare(ast.Eq(), e, x)) for e in self.iterate(container))
+        if type(container).__module__.startswith("pathlib"):   # native sequences handed out by model paths (.parents, .parts)
+            return x in container
         raise PEError(f"'in' on {type(container).__name__}")
 
     def truth(self, v):
@@ -534,9 +544,45 @@ class PE:
             return tuple(self.hashable(e) for e in x)
         if isinstance(x, Obj) and "_value_" in x.attrs and _enum_mixin(self.src, x.cls):
             return self.hashable(x.attrs["_value_"])
+        if isinstance(x, Obj):
+            key = self._value_identity(x)
+            if key is not None:
+                # the first object seen with this value stands for all equal ones (dict / set keep the first key they saw)
+                return self._interned.setdefault(key, x)
         if isinstance(x, list) or isinstance(x, Arr) or isinstance(x, dict):
             raise PERaise("TypeError", "unhashable type")
         return x
+
+    def identity_fields(self, cls, for_hash=False):
+        """names of the dataclass fields that take part in the generated __eq__ (and __hash__), or None when the class keeps
+        identity semantics (no dataclass, eq=False, own __eq__/__hash__)"""
+        if not cls.is_dataclass:
+            return None
+        decs = " ".join(ast.unparse(d) for d in cls.node.decorator_list)
+        if "eq=False" in decs or self.src.find_method(cls, "__eq__") or (for_hash and self.src.find_method(cls, "__hash__")):
+            return None
+        if for_hash and not ("frozen=True" in decs or "unsafe_hash=True" in decs):
+            return None
+        out = []
+        for name, (_c, default) in self.all_fields(cls).items():
+            flags = {}
+            if isinstance(default, ast.Call) and (ast.unparse(default.func).split(".")[-1] == "field"):
+                flags = {k.arg: k.value.value for k in default.keywords if isinstance(k.value, ast.Constant)}
+            if flags.get("compare") is False:
+                continue
+            if for_hash and flags.get("hash") is False:
+                continue
+            out.append(name)
+        return out
+
+    def _value_identity(self, x):
+        names = self.identity_fields(x.cls, for_hash=True)
+        if names is None:
+            return None
+        try:
+            return (x.cls.qname, tuple(self.hashable(x.attrs.get(n)) for n in names))
+        except (PERaise, TypeError):
+            return None
 
     def to_py(self, x):
         """for string formatting"""
@@ -607,7 +653,8 @@ class PE:
                 "ValueError", "NotImplementedError", "TypeError", "KeyError", "IndexError", "Exception",
                 "RuntimeError", "AssertionError", "AttributeError", "StopIteration", "ZeroDivisionError",
                 "LookupError", "OSError", "FileNotFoundError", "FileExistsError", "object", "NotImplemented",
-                "Ellipsis", "property", "staticmethod", "classmethod", "vars", "format", "chr", "ord", "hash")
+                "Ellipsis", "property", "staticmethod", "classmethod", "vars", "format", "chr", "ord", "hash", "open",
+                "IsADirectoryError", "NotADirectoryError", "PermissionError", "EOFError", "bytes", "bytearray")
 
     def builtin(self, name):
         if name in self.BUILTINS:
@@ -1376,6 +1423,11 @@ class PE:
                     del base[k]
                 elif isinstance(base, list):
                     del base[self.as_index(idx) if not isinstance(idx, slice) else idx]
+                elif isinstance(base, Obj) and self.src.find_method(base.cls, "__delitem__"):
+                    m = self.src.find_method(base.cls, "__delitem__")
+                    self.apply(Bound(base, Closure(m, m.node, None, m.module, m.qname)), [idx], {})
+                elif isinstance(base, Opaque):
+                    del base[idx]
                 else:
                     raise PEError("del on unsupported container")
             elif isinstance(t, ast.Attribute):
